@@ -213,7 +213,9 @@ type mutation struct {
 // mutations of one field
 func fieldMutations(fd protoreflect.FieldDescriptor, tier string) []mutation {
 	var out []mutation
-	add := func(n string, f func(m protoreflect.Message)) { out = append(out, mutation{string(fd.Name()) + "=" + n, f}) }
+	add := func(n string, f func(m protoreflect.Message)) {
+		out = append(out, mutation{string(fd.Name()) + "=" + n, f})
+	}
 	add("unset", func(m protoreflect.Message) { m.Clear(fd) })
 	name := string(fd.Name())
 	if fd.IsMap() {
@@ -342,7 +344,7 @@ func keyVariants() []string {
 		strings.Repeat("é", 40000),       // 80000 bytes, 40000 characters
 		strings.Repeat("€", 21846),       // 65538 bytes, 21846 characters
 		strings.Repeat("😀", 16384),       // 65536 bytes, 16384 characters
-		"ключ/鍵/🔑",                        // short multi-byte key
+		"ключ/鍵/🔑",                       // short multi-byte key
 	}
 }
 
@@ -675,6 +677,42 @@ func digest(s *rig.Server, names []string) string {
 	return sb.String()
 }
 
+// guarded runs an auxiliary engine call (seed, digest, count ...) under a watchdog: a recovered panic
+// can leave a lock of the swamp held, and the next call on that swamp then blocks for ever.
+func guarded(f func()) (returned bool) {
+	done := make(chan struct{})
+	go func() {
+		defer func() { _ = recover(); close(done) }()
+		f()
+	}()
+	select {
+	case <-done:
+		return true
+	case <-time.After(6 * time.Second):
+		return false
+	}
+}
+
+// probeSwamp touches a swamp the way the next request would: reads its index and takes and releases
+// the guard of every record. It goes through hydra, not through the gateway.
+func probeSwamp(s *rig.Server, swampName string) {
+	h := s.Zeus.GetHydra()
+	nm := name.Load(swampName)
+	if ex, err := h.IsExistSwamp(1, nm); err != nil || !ex {
+		return
+	}
+	sw, err := h.SummonSwamp(context.Background(), 1, nm)
+	if err != nil || sw == nil {
+		return
+	}
+	_ = sw.CountTreasures()
+	for _, t := range sw.GetAll() {
+		id := t.StartTreasureGuard(true)
+		t.ReleaseTreasureGuard(id)
+	}
+	_ = sw.TreasureExists("k1")
+}
+
 func vigilBad(s *rig.Server) int {
 	bad := 0
 	for _, v := range hydra.VigilCountsC26(s.Zeus.GetHydra()) {
@@ -707,6 +745,8 @@ func child(resultPath, root, tier string, only int) {
 	touched := map[string]string{existP: "seed"}
 	hungStop := false
 	watchSeen := false
+	memSwamp, memGen, lastPanic := existM, 0, ""
+	poisoned := false
 	for mi := 0; mi < svc.Methods().Len() && !hungStop; mi++ {
 		md := svc.Methods().Get(mi)
 		method := string(md.Name())
@@ -746,13 +786,26 @@ func child(resultPath, root, tier string, only int) {
 				}
 				// every variant of the persistent pass works on its own swamp, so that the reload check at
 				// the end names the request that damaged a swamp
-				mine := existM
+				mine := memSwamp
 				if pass == 0 {
 					mine = fmt.Sprintf("c26p/r/v%d", idx)
 					replaceStr(v.req.ProtoReflect(), existP, mine)
 					touched[mine] = method + " " + v.name
+				} else if memSwamp != existM {
+					replaceStr(v.req.ProtoReflect(), existM, memSwamp)
 				}
-				seed(s, mine)
+				// blocked reports an auxiliary call that did not return, names the last request that
+				// panicked (the likely holder of the lock) and moves the shared in-memory swamp on
+				blocked := func(what string) {
+					emit(record{Idx: -5, Method: "Blocked", Variant: what + " before/after " + method + " " + v.name, Req: lastPanic, Phase: "done", Hang: true})
+					memGen++
+					memSwamp = fmt.Sprintf("%s%d", existM, memGen)
+				}
+				if !guarded(func() { seed(s, mine) }) {
+					blocked("seeding " + mine)
+					idx++
+					continue
+				}
 				if lr, ok := v.req.(*hydrapb.LockRequest); ok && strings.HasPrefix(lr.Key, "lk") {
 					lr.Key = fmt.Sprintf("lk%d", idx) // a business lock held by an earlier variant would (rightly) block this one
 				}
@@ -786,7 +839,12 @@ func child(resultPath, root, tier string, only int) {
 					named = append(named, n)
 				}
 				sort.Strings(named)
-				stateBefore := digest(s, named)
+				stateBefore := ""
+				if !guarded(func() { stateBefore = digest(s, named) }) {
+					blocked("reading " + strings.Join(named, ","))
+					idx++
+					continue
+				}
 				before := atomic.LoadInt64(&panics)
 				type res struct {
 					n       bool
@@ -829,7 +887,35 @@ func child(resultPath, root, tier string, only int) {
 				if !rec.Hang {
 					rec.Safeops = int(safeops.LockCountC26(s.Zeus.GetSafeops()))
 					rec.VigilBad = vigilBad(s)
-					rec.Changed = digest(s, named) != stateBefore
+					if rec.Panics > 0 || rec.Escaped {
+						lastPanic = method + " " + v.name
+						// second use of the objects the panicking handler worked on: a lock or a record guard
+						// it left held blocks the next user for ever. Probed below the gateway, so that a
+						// stuck probe holds no system lock (GracefulStop waits for those).
+						for _, n := range named {
+							n := n
+							if !guarded(func() { probeSwamp(s, n) }) {
+								emit(rec)
+								blocked("second use of " + n)
+								poisoned = true
+								break
+							}
+						}
+						if poisoned {
+							poisoned = false
+							idx++
+							continue
+						}
+					}
+					after := ""
+					if guarded(func() { after = digest(s, named) }) {
+						rec.Changed = after != stateBefore
+					} else {
+						emit(rec)
+						blocked("reading " + strings.Join(named, ","))
+						idx++
+						continue
+					}
 				}
 				emit(rec)
 				if w := os.Getenv("C26_WATCH"); w != "" { // debugging aid: when does the file of a swamp appear / vanish
@@ -864,30 +950,34 @@ func child(resultPath, root, tier string, only int) {
 			if k == "" || k == "nokey" {
 				continue
 			}
-			label := fmt.Sprintf("%.6q..%db/%dr", k, len(k), utf8.RuneCountInString(k))
-			swSet := fmt.Sprintf("c26p/r/probe%dset", pi)
-			_, err := s.GW.Set(context.Background(), &hydrapb.SetRequest{Swamps: []*hydrapb.SwampRequest{{IslandID: 1, SwampName: swSet, CreateIfNotExist: true, Overwrite: true,
-				KeyValues: []*hydrapb.KeyValuePair{{Key: "small", Int64Val: &one}, {Key: k, Int64Val: &one}}}}})
-			rec := record{Idx: -3, Method: "KeyProbe", Variant: "Set " + label, Req: swSet, Phase: "done", Safeops: len(k)}
-			if err == nil {
-				touched[swSet] = "Set with the key " + label
-				probes = append(probes, probeT{swSet, []string{"small", k}})
-			} else {
-				rec.Code = int(status.Code(err))
+			if !guarded(func() {
+				label := fmt.Sprintf("%.6q..%db/%dr", k, len(k), utf8.RuneCountInString(k))
+				swSet := fmt.Sprintf("c26p/r/probe%dset", pi)
+				_, err := s.GW.Set(context.Background(), &hydrapb.SetRequest{Swamps: []*hydrapb.SwampRequest{{IslandID: 1, SwampName: swSet, CreateIfNotExist: true, Overwrite: true,
+					KeyValues: []*hydrapb.KeyValuePair{{Key: "small", Int64Val: &one}, {Key: k, Int64Val: &one}}}}})
+				rec := record{Idx: -3, Method: "KeyProbe", Variant: "Set " + label, Req: swSet, Phase: "done", Safeops: len(k)}
+				if err == nil {
+					touched[swSet] = "Set with the key " + label
+					probes = append(probes, probeT{swSet, []string{"small", k}})
+				} else {
+					rec.Code = int(status.Code(err))
+				}
+				emit(rec)
+				swInc := fmt.Sprintf("c26p/r/probe%dinc", pi)
+				_, _ = s.GW.Set(context.Background(), &hydrapb.SetRequest{Swamps: []*hydrapb.SwampRequest{{IslandID: 1, SwampName: swInc, CreateIfNotExist: true, Overwrite: true,
+					KeyValues: []*hydrapb.KeyValuePair{{Key: "small", Int64Val: &one}}}}})
+				_, err = s.GW.IncrementInt64(context.Background(), &hydrapb.IncrementInt64Request{IslandID: 1, SwampName: swInc, Key: k, IncrementBy: 1})
+				rec = record{Idx: -3, Method: "KeyProbe", Variant: "IncrementInt64 " + label, Req: swInc, Phase: "done", Safeops: len(k)}
+				if err == nil {
+					touched[swInc] = "IncrementInt64 with the key " + label
+					probes = append(probes, probeT{swInc, []string{"small", k}})
+				} else {
+					rec.Code = int(status.Code(err))
+				}
+				emit(rec)
+			}) {
+				emit(record{Idx: -5, Method: "Blocked", Variant: fmt.Sprintf("key-limit probe %d", pi), Req: lastPanic, Phase: "done", Hang: true})
 			}
-			emit(rec)
-			swInc := fmt.Sprintf("c26p/r/probe%dinc", pi)
-			_, _ = s.GW.Set(context.Background(), &hydrapb.SetRequest{Swamps: []*hydrapb.SwampRequest{{IslandID: 1, SwampName: swInc, CreateIfNotExist: true, Overwrite: true,
-				KeyValues: []*hydrapb.KeyValuePair{{Key: "small", Int64Val: &one}}}}})
-			_, err = s.GW.IncrementInt64(context.Background(), &hydrapb.IncrementInt64Request{IslandID: 1, SwampName: swInc, Key: k, IncrementBy: 1})
-			rec = record{Idx: -3, Method: "KeyProbe", Variant: "IncrementInt64 " + label, Req: swInc, Phase: "done", Safeops: len(k)}
-			if err == nil {
-				touched[swInc] = "IncrementInt64 with the key " + label
-				probes = append(probes, probeT{swInc, []string{"small", k}})
-			} else {
-				rec.Code = int(status.Code(err))
-			}
-			emit(rec)
 		}
 	}
 	// counts before shutdown
@@ -899,9 +989,13 @@ func child(resultPath, root, tier string, only int) {
 	sort.Strings(names)
 	if !hungStop {
 		for _, n := range names {
-			c, err := s.GW.Count(context.Background(), &hydrapb.CountRequest{Swamps: []*hydrapb.CountRequest_SwampIdentifier{{IslandID: 1, SwampName: n}}})
-			if err == nil && c != nil && len(c.Swamps) == 1 && c.Swamps[0].IsExist && c.Swamps[0].Count > 0 {
-				counts[n] = c.Swamps[0].Count
+			if !guarded(func() {
+				c, err := s.GW.Count(context.Background(), &hydrapb.CountRequest{Swamps: []*hydrapb.CountRequest_SwampIdentifier{{IslandID: 1, SwampName: n}}})
+				if err == nil && c != nil && len(c.Swamps) == 1 && c.Swamps[0].IsExist && c.Swamps[0].Count > 0 {
+					counts[n] = c.Swamps[0].Count
+				}
+			}) {
+				emit(record{Idx: -5, Method: "Blocked", Variant: "counting " + n + " before shutdown", Req: touched[n], Phase: "done", Hang: true})
 			}
 		}
 		stopped := make(chan struct{})
@@ -910,7 +1004,8 @@ func child(resultPath, root, tier string, only int) {
 		case <-stopped:
 			emit(record{Idx: -1, Method: "GracefulStop", Phase: "done"})
 		case <-time.After(60 * time.Second):
-			emit(record{Idx: -1, Method: "GracefulStop", Phase: "done", Hang: true})
+			emit(record{Idx: -1, Method: "GracefulStop", Phase: "done", Hang: true, Req: lastPanic})
+			emit(record{Idx: -9, Method: "END", Phase: "done"})
 			w.Flush()
 			os.Exit(0)
 		}
@@ -1112,6 +1207,17 @@ func main() {
 				idx := run.Add("(VC None (SH NOk false KOk false false false false false false) false 0%Z 0%Z false 0%Z 0%Z false false false)", map[string]interface{}{"stop": "did not complete in 60 s"}, true)
 				run.Violate(idx, "never leaves the server unable to shut down", "graceful_stop_does_not_complete", "GracefulStop did not complete within 60 s after the generated requests")
 			}
+		}
+		if r.Method == "Blocked" {
+			run.Hist("engine-call-blocked")
+			sig := "engine_call_blocked"
+			if strings.Contains(r.Req, "ShiftMatchingTreasures") && strings.Contains(r.Req, "nil-element") {
+				sig = "request_blocked_after_recovered_panic_in_shiftmatching_nil_element"
+			} else if r.Req != "" {
+				sig = "request_blocked_after_recovered_panic"
+			}
+			idx := run.Add("(VC None (SH NOk false KOk false false false false false false) false 0%Z 0%Z false 0%Z 0%Z false false false)", map[string]interface{}{"blocked": r.Variant, "last_panicking_request": r.Req}, true)
+			run.Violate(idx, "never leaves the swamp unable to close", sig, fmt.Sprintf("%s did not return within 6 s; last request that panicked: %q", r.Variant, r.Req))
 		}
 		if r.Method == "KeyProbe" {
 			run.Hist("key-limit-probe")
